@@ -44,7 +44,7 @@ PLANS = {
     },
     "C05": {
         "level": "other",
-        "sidecars": ["bonds", "debump", "quatfit"],
+        "sidecars": ["bonds", "debump", "quatfit", "tetra"],
         "extras": [{"name": "c04_torsion_rank_table", "module": "tables.x_checks", "func": "c04_torsion_ranks", "python": "vt"},
                    {"name": "c05_geometry", "module": "bounded.c05_geometry", "func": "run", "python": "venv"}],
         "explanation": "Contracts decide only the placement mechanism: the fitted placement is a rigid motion of the "
